@@ -4,3 +4,4 @@ import AITB.Model.Factored
 import AITB.Props.C14
 import AITB.Model.Belief
 import AITB.Props.C05
+import AITB.Props.C05Src
